@@ -716,6 +716,11 @@ B("collected set of identifiers in use that filters the queued requests", ["C17"
   _inuse_set("taken.update(request.msgId for request in queue if request.qos == 2)"), {"C17": ["ID-SCAN"]})
 B("collected set of identifiers in use from which the current counter value is removed again", ["C17"],
   _inuse_set("taken.update(request.msgId for request in queue)", "        taken.discard(self.id + 1)\n"), {"C17": ["ID-SCAN"]})
+B("makeId gives up after 100 candidates", ["C17"], [(FAC, "        for _ in range(65535):\n", "        for _ in range(100):\n")], {"C17": ["ID-VERDICT"]})
+B("makeId hands out the candidate after 100 tries whether it is free or not", ["C17"],
+  [(FAC, "            if not self._idInUse(self.id):\n                return self.id\n", "            if not self._idInUse(self.id) or _ > 100:\n                return self.id\n")], {"C17": ["ID-VERDICT"]})
+B("makeId as a while loop that leaves with a candidate still in use once few attempts remain", ["C17"],
+  [(FAC, _MAKEID_OLD, _MAKEID_WHILE.replace("ZERO", "            if not candidate:\n                candidate = 1\n").replace("            if not self._idInUse(candidate):\n", "            if not self._idInUse(candidate) or attempts < 10:\n"))], {"C17": ["ID-VERDICT"]})
 B("whole registry measured through a local alias (retry delay depends on the number of addresses)", ["C19"],
   [(PS, "        interval = request.interval() + 0.25*len(self.factory.windowSubscribe[self.addr])",
     "        windows = self.factory.windowSubscribe\n        interval = request.interval() + 0.25*len(windows)")], {"C19": ["I-KEY"]})
